@@ -179,6 +179,10 @@ def fit (ops : Ops α τ) (s : Opt α) (e : Fit α τ) : Except Err (Opt α) :=
 
 def nonFail (xs : List (α × Obj)) : Nat := (xs.filter (fun p => p.2 != Obj.fail)).length
 
+/-- the state `_tell` is in before it decides whether to fit -/
+def told1 (s : Opt α) (xs : List (α × Obj)) : Opt α :=
+  { s with told := s.told ++ xs, nInit := s.nInit - (nonFail xs : Nat), cache := none }
+
 /-- `Optimizer._tell(x, y)` (batch or single form: `xs` lists the told pairs) -/
 def tellCore (ops : Ops α τ) (s : Opt α) (xs : List (α × Obj)) (e : Fit α τ) : Except Err (Opt α) :=
   let s1 : Opt α := { s with told := s.told ++ xs, nInit := s.nInit - (nonFail xs : Nat), cache := none }
@@ -187,6 +191,10 @@ def tellCore (ops : Ops α τ) (s : Opt α) (xs : List (α × Obj)) (e : Fit α 
 /-- `Optimizer.tell(x, y)`: `check_x_in_space` first -/
 def tell (ops : Ops α τ) (s : Opt α) (xs : List (α × Obj)) (e : Fit α τ) : Except Err (Opt α) :=
   if xs.all (fun p => ops.accept p.1) then tellCore ops s xs e else .error .notInSpace
+
+/-- the fresh optimizer `copy()` builds before it is told the history -/
+def copy0 (s : Opt α) : Opt α :=
+  { s with nInit := s.nInit0, told := [], nextX := none, nextFrom := [], last := none, cache := none }
 
 /-- `Optimizer.copy()`: a new optimizer that inherits `sampled[:]` and `_initial_samples` and is
 told everything the original was told (which refits and recomputes its own `_next_x`). -/
@@ -417,6 +425,16 @@ def run (ops : Ops α τ) : Cbo α → List (Round α τ) → Except Err (Cbo α
         match run ops c2 rs with
         | .error e => .error e
         | .ok (c3, Y) => .ok (c3, X ++ Y)
+
+/-! ### executable freshness check -/
+
+/-- the C08 checker the harness runs on the proposals of the implementation (proved equivalent
+to the freshness statement in `Proofs/AskMembership.lean`): each proposal that repeats an earlier one was selected
+from a candidate list whose members had all been proposed before -/
+def selsOKb : List α → List (Sel α) → Bool
+  | _, [] => true
+  | H, z :: zs =>
+    (!decide (z.x ∈ H) || z.offered.all (fun c => decide (c ∈ H))) && selsOKb (H ++ [z.x]) zs
 
 /-! ### the two C08 paths as they are on the pinned tree (regression witnesses only) -/
 
